@@ -1148,6 +1148,46 @@ func deleteBehindQueue(m *meta, rng *rand.Rand, round int) {
 	m.count("delete_behind_queue_rounds")
 }
 
+// doubleClear (C04): Clear, an accepted SetAsync, Clear again, all queued behind a busy drain token so that they land in
+// ONE batch: the second Clear must remove the write accepted before it.
+func doubleClear(m *meta, rng *rand.Rand, round int) {
+	pol := pick(rng, []kioshun.EvictionPolicy{kioshun.LRU, kioshun.FIFO, kioshun.SieveTinyLFU, kioshun.LFU})
+	ctx := fmt.Sprintf("double clear round %d policy %v", round, pol)
+	c, err := kioshun.New[int, int](kioshun.Config{ShardCount: 1, EvictionPolicy: pol, MaxSize: 64, WriteBatchSize: pick(rng, []int{4, 64})})
+	must(err)
+	watch(ctx)
+	defer unwatch()
+	c.Set(1, 1, kioshun.NoExpiration)
+	c.VerifHoldDrain(0, true)
+	waitHead := func(h0 uint64) {
+		for t0 := time.Now(); time.Since(t0) < 2*time.Second; {
+			if h, _, _, _ := c.VerifRingState(0); h > h0 {
+				return
+			}
+			runtime.Gosched()
+		}
+	}
+	h0, _, _, _ := c.VerifRingState(0)
+	d1 := make(chan struct{})
+	go func() { c.Clear(); close(d1) }()
+	waitHead(h0)
+	if e := c.SetAsync(7, 7, kioshun.NoExpiration); e != nil {
+		m.violate("C04", ctx+": SetAsync failed", ctx)
+	}
+	h1, _, _, _ := c.VerifRingState(0)
+	d2 := make(chan struct{})
+	go func() { c.Clear(); close(d2) }()
+	waitHead(h1)
+	c.VerifHoldDrain(0, false)
+	<-d1
+	<-d2
+	if v, ok := c.Get(7); ok || c.Size() != 0 {
+		m.violate("C04", fmt.Sprintf("%s: Clear, SetAsync(7,7) accepted, Clear again (all queued in one batch): after the second Clear returned Get(7)=(%d,%v), Size=%d", ctx, v, ok, c.Size()), ctx)
+	}
+	c.Close()
+	m.count("double_clear_rounds")
+}
+
 // flickerProbe replays the schedule of C02.v's c02_atomic_refuted on the real cache through the yield hooks:
 // a reader parked after loading a matching tag, the key deleted and re-inserted into the same slot, the
 // writer parked between publish's item store and tag store. Finding F10 when it reproduces.
@@ -1486,6 +1526,7 @@ func streamConc(o opts) {
 			statsRace(m, rng, r)
 			cleanupRace(m, rng, r)
 			deleteBehindQueue(m, rng, r)
+			doubleClear(m, rng, r)
 			m.nontrivial(fmt.Sprintf("async+close/%d", r%16))
 		case 3:
 			tableRace(m, rng, r)
